@@ -32,7 +32,15 @@
 //! p            restore the default SIGPIPE disposition (a write to a closed pipe then kills the child)
 //! x<code>      exit(code)        k   kill(getpid(), SIGKILL)        h   hang (sleep for ever)
 //! r            read stdin to its end          r<n>  read n bytes of stdin          c   close stdin
+//! Co Ce Cb     close(1) / close(2) / both, and carry on with the script (the runner's reader sees end of file
+//!              while the child is alive; a later `o`/`e` token for that stream fails with EBADF and is NOT
+//!              part of what the child "was told to write": it reaches no pipe)
+//! No Ne Nb     the same by redirection: dup2(open("/dev/null"), 1 / 2 / both)
+//! G<ms>        fork a grandchild that closes its inherited fds 0, 1, 2 at once, sleeps <ms> and exits
+//! F<ms>        fork a grandchild that KEEPS the inherited fds (the capture pipes' write ends, the stdin
+//!              pipe's read end) open, sleeps <ms> and exits: the pipes stay open after the child is gone
 //! ```
+//! A forked grandchild writes its pid to `<pidfile>.g`; the harness kills it after the repetition.
 //! The patterns are functions of (stream, pattern, offset in the stream), so the harness, the child
 //! and the Lean driver all know every byte; stdout and stderr use different bytes.
 //!
@@ -46,7 +54,7 @@
 //! was told to write, is above the cap, or is non-null for an uncaptured stream; `success` not equal
 //! to `exit_code == 0`; an exit code that is not the planned one; the child's pid still present
 //! afterwards (running or zombie); a run that does not return; an `ok` for a child that was still
-//! asleep half a second after its timeout.
+//! asleep half a second after its timeout; a run that returns more than 3 s after its deadline.
 
 use std::collections::BTreeMap;
 use std::fs::File;
@@ -71,7 +79,7 @@ pub fn main(args: &[String]) -> i32 {
         Some("child") => child(&args[1..]),
         _ => {
             eprintln!(
-                "usage: nvh capture gen --seed S --n N [--mode mix|d16|race|utf8|rd|stdin] | nvh capture run [--jobs J] < requests | nvh capture child ..."
+                "usage: nvh capture gen --seed S --n N [--mode mix|d16|race|utf8|rd|stdin|close] | nvh capture run [--jobs J] < requests | nvh capture child ..."
             );
             2
         }
@@ -121,6 +129,10 @@ enum Tok {
     Hang,
     ReadIn(Option<usize>),
     CloseIn,
+    /// close (or, `devnull`, redirect to /dev/null) stdout and / or stderr and carry on
+    CloseOut { out: bool, err: bool, devnull: bool },
+    /// fork a grandchild that sleeps `ms`; `keep`: it keeps the inherited descriptors open
+    Fork { ms: u64, keep: bool },
 }
 
 fn parse_tok(t: &str) -> Option<Tok> {
@@ -141,20 +153,43 @@ fn parse_tok(t: &str) -> Option<Tok> {
         b'c' if t.len() == 1 => Some(Tok::CloseIn),
         b'r' if t.len() == 1 => Some(Tok::ReadIn(None)),
         b'r' => Some(Tok::ReadIn(Some(t[1..].parse().ok()?))),
+        b'C' | b'N' if t.len() == 2 => {
+            let (out, err) = match b[1] {
+                b'o' => (true, false),
+                b'e' => (false, true),
+                b'b' => (true, true),
+                _ => return None,
+            };
+            Some(Tok::CloseOut { out, err, devnull: b[0] == b'N' })
+        }
+        b'F' | b'G' => Some(Tok::Fork { ms: t[1..].parse().ok()?, keep: b[0] == b'F' }),
         _ => None,
     }
 }
 
-/// The bytes the script writes to each stream.
+/// The bytes the script writes to each stream while it has the stream open (a write after the
+/// stream was closed or redirected reaches no pipe; tokens after the ending are never executed).
 fn plan_bytes(toks: &[Tok]) -> (Vec<u8>, Vec<u8>) {
     let (mut o, mut e) = (Vec::new(), Vec::new());
+    let (mut closed_o, mut closed_e) = (false, false);
     for t in toks {
-        if let Tok::Write { err, n, k } = *t {
-            let v = if err { &mut e } else { &mut o };
-            for _ in 0..n {
-                let off = v.len();
-                v.push(pat_byte(err, k, off));
+        match *t {
+            Tok::Write { err, n, k } => {
+                if (err && closed_e) || (!err && closed_o) {
+                    continue;
+                }
+                let v = if err { &mut e } else { &mut o };
+                for _ in 0..n {
+                    let off = v.len();
+                    v.push(pat_byte(err, k, off));
+                }
             }
+            Tok::CloseOut { out, err, .. } => {
+                closed_o |= out;
+                closed_e |= err;
+            }
+            Tok::Exit(_) | Tok::KillSelf | Tok::Hang => break,
+            _ => {}
         }
     }
     (o, e)
@@ -181,8 +216,10 @@ fn write_all_fd(fd: i32, mut buf: &[u8]) -> bool {
 fn child(args: &[String]) -> i32 {
     let mut us = 0u64;
     let mut toks = Vec::new();
+    let mut pidfile: Option<String> = None;
     for a in args {
         if let Some(p) = a.strip_prefix("pidfile=") {
+            pidfile = Some(p.to_string());
             // write-then-rename so that a reader never sees a partial file
             let tmp = format!("{p}.tmp");
             if let Ok(mut f) = File::create(&tmp) {
@@ -250,6 +287,43 @@ fn child(args: &[String]) -> i32 {
             }
             Tok::CloseIn => unsafe {
                 libc::close(0);
+            },
+            Tok::CloseOut { out, err, devnull } => unsafe {
+                for (fd, on) in [(1, out), (2, err)] {
+                    if !on {
+                        continue;
+                    }
+                    if devnull {
+                        let null = libc::open(c"/dev/null".as_ptr(), libc::O_WRONLY);
+                        if null >= 0 && null != fd {
+                            libc::dup2(null, fd);
+                            libc::close(null);
+                        }
+                    } else {
+                        libc::close(fd);
+                    }
+                }
+            },
+            Tok::Fork { ms, keep } => unsafe {
+                let g = libc::fork();
+                if g == 0 {
+                    // the grandchild (this process is single-threaded: anything goes after fork)
+                    if !keep {
+                        libc::close(0);
+                        libc::close(1);
+                        libc::close(2);
+                    }
+                    if let Some(p) = &pidfile {
+                        let tmp = format!("{p}.g.tmp");
+                        if let Ok(mut f) = File::create(&tmp) {
+                            let _ = write!(f, "{}", std::process::id());
+                            drop(f);
+                            let _ = std::fs::rename(&tmp, format!("{p}.g"));
+                        }
+                    }
+                    std::thread::sleep(Duration::from_millis(ms));
+                    libc::_exit(0);
+                }
             },
         }
     }
@@ -384,6 +458,7 @@ fn run_rep(sc: &Scenario, rep: u32, tmpdir: &str, exe: &str) -> RepResult {
     }
     argv.extend(sc.raw_toks.iter().cloned());
 
+    let started = std::time::Instant::now();
     let (tx, rx) = mpsc::channel();
     let sc2 = sc.clone();
     let exe2 = exe.to_string();
@@ -470,6 +545,8 @@ fn run_rep(sc: &Scenario, rep: u32, tmpdir: &str, exe: &str) -> RepResult {
         .sum();
     let limit = Duration::from_millis(u64::from(sc.timeout) + sleeps + 8_000);
     let mut oracle = Vec::new();
+    let gfile = format!("{pidfile}.g");
+    let read_gpid = || -> Option<i32> { std::fs::read_to_string(&gfile).ok()?.trim().parse().ok() };
     let res = match rx.recv_timeout(limit) {
         Ok(r) => {
             let _ = worker.join();
@@ -477,8 +554,8 @@ fn run_rep(sc: &Scenario, rep: u32, tmpdir: &str, exe: &str) -> RepResult {
         }
         Err(_) => {
             hogs_stop.store(true, Ordering::Relaxed);
-            // release the stuck runner: kill the child ourselves
-            if let Some(pid) = read_pid() {
+            // release the stuck runner: kill the child (and a grandchild holding the pipes) ourselves
+            for pid in [read_pid(), read_gpid()].into_iter().flatten() {
                 unsafe {
                     libc::kill(pid, libc::SIGKILL);
                 }
@@ -487,6 +564,23 @@ fn run_rep(sc: &Scenario, rep: u32, tmpdir: &str, exe: &str) -> RepResult {
             None
         }
     };
+    // Whatever the child does, the run is over when the child ends by itself or at the deadline
+    // (plus one poll interval, plus scheduling): a run that returns seconds after its timeout was
+    // waiting for something other than the child and the clock.
+    let elapsed = started.elapsed().as_millis() as u64;
+    if res.is_some() && elapsed > u64::from(sc.timeout) + 3_000 {
+        oracle.push(format!(
+            "the run returned more than 3 s after its deadline (timeout {} ms): the runner was blocked on something other than the child and the clock",
+            sc.timeout
+        ));
+    }
+    // a grandchild forked by the script must not outlive the repetition (it is ours to clean up)
+    if let Some(g) = read_gpid() {
+        unsafe {
+            libc::kill(g, libc::SIGKILL);
+        }
+    }
+    let _ = std::fs::remove_file(&gfile);
     let planned_code: Option<Option<i32>> = sc.toks.iter().find_map(|t| match t {
         Tok::Exit(c) => Some(Some(*c & 0xff)),
         Tok::KillSelf => Some(None),
@@ -718,6 +812,10 @@ fn generate(args: &[String]) -> i32 {
     }
     if mode == "stdin" {
         gen_stdin(&mut rng, n, &mut out);
+        return 0;
+    }
+    if mode == "close" {
+        gen_close(&mut rng, n, &mut out);
         return 0;
     }
     for i in 0..n {
@@ -1022,6 +1120,78 @@ fn gen_stdin(rng: &mut Rng, n: u64, out: &mut util::Out) {
         }
     }
     for l in late.into_iter().chain(rest).take(n as usize) {
+        out.line(&l);
+    }
+}
+
+/// Children that close (`C`) or redirect to /dev/null (`N`) stdout, stderr or both at a chosen point
+/// — at once, after some bytes, after everything — and then go on: sleep past the timeout and exit,
+/// hang, exit in time with a code, write more to the other stream, "write" to the closed stream.
+/// The first `n` of a matrix (children that outlive their timeout first), seed-dependent sizes.
+fn gen_close(rng: &mut Rng, n: u64, out: &mut util::Out) {
+    let mut late: Vec<String> = Vec::new();
+    let mut rest: Vec<String> = Vec::new();
+    let pols = [("c", "c"), ("c", "n"), ("n", "c"), ("c", "i"), ("c", "c")];
+    let mut k = 0usize;
+    for how in ['C', 'N'] {
+        for which in ['b', 'o', 'e'] {
+            let (po, pe) = match which {
+                // closing one stream only makes its reader finish: every captured stream must be closed
+                // for "all readers are done while the child lives"; leave the other one uncaptured half the time
+                'o' => [("c", "n"), ("c", "c"), ("c", "i")][k % 3],
+                'e' => [("n", "c"), ("c", "c"), ("i", "c")][k % 3],
+                _ => pols[k % pols.len()],
+            };
+            k += 1;
+            let cap = *rng.pick(&[16u32, 100, 100, 8192]);
+            let poll = *rng.pick(&[1u32, 2, 5, 10]);
+            let timeout = 200 + rng.below(101);
+            let head = |timeout: u64, reps: u32| {
+                format!("sc cap={cap} poll={poll} timeout={timeout} out={po} err={pe} reps={reps} hogs=0 |")
+            };
+            let close = format!("{how}{which}");
+            let no = rng.below(u64::from(cap) + 1);
+            let ne = rng.below(u64::from(cap.min(40)) + 1);
+            let ko = *rng.pick(&['a', 'a', 'm']);
+            // (1) closes at once, sleeps past the timeout, exits by itself
+            late.push(format!("{} {close} s{} x0", head(timeout, 1), timeout + 1500));
+            // (2) writes, closes, sleeps past the timeout, exits with a code
+            late.push(format!("{} o{no}{ko} e{ne}a {close} s{} x{}", head(timeout, 1), timeout + 1500, rng.pick(&CODES)));
+            // (3) writes, closes, never exits
+            late.push(format!("{} o{no}{ko} {close} e{ne}a h", head(timeout, 1)));
+            // (4) closes, "writes" to what it closed (reaches nobody), sleeps past the timeout
+            if which != 'b' {
+                late.push(format!("{} e2a o3a {close} o7a e7a s{} x0", head(timeout, 1), timeout + 1500));
+            }
+            // (5) in time: writes, closes, short sleep, more to the other stream, exit code as data
+            rest.push(format!("{} o{no}{ko} {close} s{} e{ne}a o5a x{}", head(20_000, 2), 5 + rng.below(40), rng.pick(&CODES)));
+            // (6) in time: closes first, then exits at once / by its own signal
+            rest.push(format!("{} {close} {}", head(20_000, 2), if rng.chance(1, 3) { "k".to_string() } else { format!("x{}", rng.pick(&CODES)) }));
+            // (7) over the cap, then closes and sleeps past the timeout: the limit error, not a timeout
+            if which != 'e' && po == "c" {
+                late.push(format!("{} o{}a {close} s{} x0", head(timeout, 1), cap + 1 + rng.below(3) as u32, timeout + 1500));
+            }
+            // (8) invalid UTF-8, closed, in time
+            if which != 'e' && po == "c" {
+                rest.push(format!("{} o2a o1x {close} s3 x0", head(20_000, 2)));
+            }
+        }
+    }
+    // a well-behaved grandchild (detaches from the inherited descriptors) outliving everything
+    late.push("sc cap=100 poll=5 timeout=250 out=c err=c reps=1 hogs=0 | o5a G3000 h".to_string());
+    rest.push("sc cap=100 poll=5 timeout=20000 out=c err=c reps=2 hogs=0 | o5a G3000 e3a x4".to_string());
+    // interleave: two late ones, one in time, so that a small `n` gets both kinds
+    let (mut li, mut ri) = (late.into_iter(), rest.into_iter());
+    let mut all: Vec<String> = Vec::new();
+    loop {
+        let before = all.len();
+        all.extend(li.by_ref().take(2));
+        all.extend(ri.by_ref().take(1));
+        if all.len() == before {
+            break;
+        }
+    }
+    for l in all.into_iter().take(n as usize) {
         out.line(&l);
     }
 }
